@@ -367,9 +367,16 @@ def parseVCert (args : List String) : Option VCert := do
     32 = never check the subject); `ref = true`: the library's answer under exactly those flags. -/
 def libOf (tr : List String) (ref : Bool := false) : Cert.Lib :=
   let toks := tr.map (·.splitOn ":")
-  { rx := fun pat v => toks.any fun t => match t with
-      | ["rx", p, s, r] => ofHex p == some pat && ofHex s == some v && r.startsWith "m"
-      | _ => false
+  { rx := fun pat v =>
+      -- (rxref: the answer of the expression compiled the documented way - extended, caseless, the whole value one line -, recorded
+      --  whenever it differs from the answer of the expression as the code compiled it)
+      match (if ref then toks.findSome? fun t => match t with
+                | ["rxref", p, s, r] => if ofHex p == some pat && ofHex s == some v then some (r == "m") else none
+                | _ => none else none) with
+      | some a => a
+      | none => toks.any fun t => match t with
+        | ["rx", p, s, r] => ofHex p == some pat && ofHex s == some v && r.startsWith "m"
+        | _ => false
     hostCheck := fun h cn => (toks.findSome? fun t => match t with
       | ["hc", hh, fl, r] => if !ref && ofHex hh == some h && fl.toNat? == some (if cn then 4 else 36) then r.toInt? else none
       | ["hcref", hh, c, r] => if ref && ofHex hh == some h && (c == "1") == cn then r.toInt? else none
